@@ -2,7 +2,7 @@
    Directives: ExtrOcamlBasic only; N/Z/positive stay Coq's datatypes. *)
 Require Extraction.
 Require Import ExtrOcamlBasic.
-From OrdV Require Import Base.Prelude Index.Runes.
+From OrdV Require Import Base.Prelude Index.Runes Index.Events.
 Cd "../extract/gen".
-Extraction "x_runes.ml" run_C08 run_C09 run_C10 run_C11.
+Extraction "x_runes.ml" run_C08 run_C09 run_C10 run_C11 run_C37.
 Cd "../../coq".
